@@ -58,6 +58,8 @@ type world struct {
 	byRef           map[string]*key // "did:ex:a#ed" -> key
 	vdr             *vdrStub
 	fetch           func(d, f string) (*verifier.PublicKey, error)
+	semCalls, seed  int
+	semAll          bool
 }
 
 const (
@@ -753,7 +755,9 @@ func (w *world) semantic(r *hx.Rng, b *baseTok, c *Case, tr *hx.Trace) {
 	}
 
 	kid := b.cfgRef
-	put := func(note, tok string) { w.run("attack", with(c, tok, note), true, tr) }
+	w.semCalls++
+	coq := w.semAll || (w.semCalls+w.seed)%3 == 0
+	put := func(note, tok string) { w.run("attack", with(c, tok, note), coq, tr) }
 	hdrWith := func(a, kd string, extra ...[2]string) string {
 		m := [][2]string{}
 		if a != "-" {
@@ -858,14 +862,14 @@ func (w *world) semantic(r *hx.Rng, b *baseTok, c *Case, tr *hx.Trace) {
 	// detached option handed to an attached token and the reverse
 	dc := *c
 	dc.HasDet, dc.Det = true, other
-	w.run("attack", with(&dc, b.tok(), "detached-other"), true, tr)
+	w.run("attack", with(&dc, b.tok(), "detached-other"), coq, tr)
 
 	dc.Det = b.pay
-	w.run("attack", with(&dc, b.hseg+".."+b.sseg, "detached-same"), true, tr)
-	w.run("attack", with(&dc, b.hseg+".e30."+b.sseg, "detached-junk-middle"), true, tr)
+	w.run("attack", with(&dc, b.hseg+".."+b.sseg, "detached-same"), coq, tr)
+	w.run("attack", with(&dc, b.hseg+".e30."+b.sseg, "detached-junk-middle"), coq, tr)
 
 	dc.Det = ""
-	w.run("attack", with(&dc, b.tok(), "detached-empty"), true, tr)
+	w.run("attack", with(&dc, b.tok(), "detached-empty"), coq, tr)
 }
 
 // cross emits tokens in which alg and key disagree, signed by the key's holder in every way he can.
@@ -968,6 +972,7 @@ func main() {
 	w.corpus(args.Extra, tr)
 
 	thorough := args.Tier == "thorough"
+	w.seed, w.semAll = int(args.Seed%3), thorough
 	entries := []string{"jws", "jwt", "did", "jwt-ignore"}
 
 	// base tokens: every party key in both published forms; quick alters one form per key position-exhaustively
@@ -1001,7 +1006,7 @@ func main() {
 			}
 
 			full := thorough || (int(args.Seed)+ki)%2 == fi
-			nSub, every := 2, 3
+			nSub, every := 2, 6
 
 			if thorough {
 				nSub, every = 6, 2
